@@ -8,6 +8,11 @@ TRUSTED_COMMON = [
 ]
 
 FAMILY_ASSUMPTIONS = {
+    "shmem": [
+        "hwloc__topology_dup is replaced by its allocation contract (a ghost sequence of 3 block requests, the same in the length pass and the write pass: dup is assumed deterministic on an unchanged topology)",
+        "system calls (lseek, read, write, ftruncate, mmap, munmap, sysconf) are nondeterministic stubs; a successful mmap at the requested address is a 16 KiB object",
+        "what adopt() does after the ABI check (copying the topology struct, hooks, infos) and equality of the adopted copy are not decided",
+    ],
     "guard": [
         "bitmaps are abstract version counters here (/verif/include/topology.model.h): hwloc_bitmap_intersects returns a ghost fact and logs its arguments, hwloc_bitmap_and/copy bump the destination's version; the real bitmap functions are verified under C03",
         "assumed contract for hwloc_free_unlinked_object (assigns nothing that belongs to the topology) where it is replaced",
